@@ -56,11 +56,6 @@ theorem conjNorm_canonical {α : Type} {cmp : α → α → Ordering} (h : Total
   | nil => exact absurd h2 (sortU_ne_nil h _ (leaves_ne_nil t2))
   | cons a l => rfl
 
-theorem natCmp_total : TotalOrder (fun a b : Nat => compare a b) where
-  eq_iff := by intro a b; simp
-  gt_iff := by intro a b; rw [Nat.compare_eq_gt, Nat.compare_eq_lt]
-  lt_trans := by intro a b c; simp only [Nat.compare_eq_lt]; omega
-
 example : conjNorm (fun a b : Nat => compare a b) (.node (.node (.leaf 3) (.leaf 1)) (.leaf 3))
     = conjNorm (fun a b : Nat => compare a b) (.node (.leaf 1) (.node (.leaf 3) (.leaf 1))) :=
   conjNorm_canonical natCmp_total _ _ (by intro x; simp [Tree.leaves]; omega)
